@@ -20,8 +20,10 @@ static int thorough;
  * reliable clock does, and what the repository's own sslTest callback does), and refuses every other alert */
 enum { CB_NONE = 0, CB_STRICT, CB_PERMISSIVE, CB_FORGIVE_EXPIRED, CB_N };
 static const char *cbname[] = { "no-callback", "strict-callback", "permissive-callback", "callback-forgives-only-expiry" };
-enum { X_CHAIN = 0, X_WRONGKEY, X_NOANCHOR, X_WRONGNAME, X_N };
-static const char *xname[] = { "chain", "wrong-private-key", "no-trust-anchor", "wrong-expected-name" };
+/* X_DEPTH1/2/3: the verifier limits the path length with validateCertsOpts.max_verify_depth; the good chain is leaf + one
+ * intermediate under the root, i.e. a path of three certificates: limits 1 and 2 must refuse it, limit 3 must accept it */
+enum { X_CHAIN = 0, X_WRONGKEY, X_NOANCHOR, X_WRONGNAME, X_DEPTH1, X_DEPTH2, X_DEPTH3, X_N };
+static const char *xname[] = { "chain", "wrong-private-key", "no-trust-anchor", "wrong-expected-name", "max-verify-depth-1", "max-verify-depth-2", "max-verify-depth-3" };
 
 typedef struct { int ver, kx, slice; uint16_t suite; const char *name; } m_cfg_t;
 static const m_cfg_t mcfgs[] = {
@@ -209,6 +211,10 @@ static void run_handshake(const c_case_t *c, c_out_t *o)
     memset(&co, 0, sizeof(co));
     so.versionFlag = ver_flag(M->ver);
     co.versionFlag = ver_flag(M->ver);
+    if (c->x >= X_DEPTH1 && c->x <= X_DEPTH3)
+    {
+        (c->vrole == 0 ? &co : &so)->validateCertsOpts.max_verify_depth = 1 + c->x - X_DEPTH1;
+    }
     if (c->x == X_WRONGNAME && c->vrole == 0)
     {
         expected = "wrong.example.org";
@@ -296,7 +302,7 @@ static void run_case(void *ctx, mx_result_t *r)
     }
     ref_lax(chain, 2, anch, c->x == X_NOANCHOR ? 0 : 1, &lax);
     pop_bad = c->x == X_WRONGKEY;
-    must_reject = !lax.ok || c->x == X_WRONGNAME || c->x == X_NOANCHOR;
+    must_reject = !lax.ok || c->x == X_WRONGNAME || c->x == X_NOANCHOR || c->x == X_DEPTH1 || c->x == X_DEPTH2;
     {
         /* is being outside the validity period the ONLY thing wrong with this credential?  (the same chain with the
            out-of-date certificates replaced by their in-date twins is valid, the name is right, an anchor is loaded) */
@@ -323,6 +329,10 @@ static void run_case(void *ctx, mx_result_t *r)
     if (vc && pop_bad)
     {
         sym = "completed-without-proof-of-possession";
+    }
+    else if (!vc && c->x == X_DEPTH3 && lax.ok && c->kleaf == K_GOOD && c->kint == K_GOOD)
+    {
+        sym = "valid-chain-within-the-depth-limit-refused";
     }
     else if (vc && must_reject && c->cb == CB_FORGIVE_EXPIRED)
     {
@@ -390,7 +400,7 @@ int main(int argc, char **argv)
     cfg.level = "model_checking";
     cfg.engine = "exhaustive product of live handshakes between real endpoints; credentials from the generated C03 certificate universe; reference verdict from the C03 path validator";
     cfg.rule = "case = (version x key-exchange class, verifying role, callback mode in {none, strict, permissive, forgives only certificate_expired}, credential: each of the 31 certificate kinds at the leaf and at the intermediate position, "
-               "or a good chain with the WRONG private key, or no trust anchor on the verifier, or a wrong expected name; under the expiry-forgiving callback additionally every DOUBLE defect: an expired / not-yet-valid certificate combined with each other kind at the other position, with no anchor, with the wrong key, with the wrong name); every cell of the product is a live handshake; non-trivial = the credential could be loaded and the handshake ran";
+               "or a good chain with the WRONG private key, or no trust anchor on the verifier, or a wrong expected name, or a path-length limit (max_verify_depth 1, 2: must refuse; 3: must accept); under the expiry-forgiving callback additionally every DOUBLE defect: an expired / not-yet-valid certificate combined with each other kind at the other position, with no anchor, with the wrong key, with the wrong name); every cell of the product is a live handshake; non-trivial = the credential could be loaded and the handshake ran";
     cfg.assumptions[0] = "must-reject = the reference validator (rules of C03) rejects the chain, or the expected name is wrong, or the verifier has no trust anchor; then completion of the verifier is a violation unless the permissive callback was asked with a non-zero alert";
     cfg.assumptions[2] = "under the callback that forgives only certificate_expired the verifier may complete only if being outside the validity period is the ONLY defect of the credential (the chain with the out-of-date certificates replaced by in-date twins is valid) and the callback was asked with exactly that alert";
     cfg.assumptions[1] = "a peer that does not hold the certified private key must never be accepted, whatever the callback says";
@@ -468,6 +478,9 @@ int main(int argc, char **argv)
                     }
                 }
                 c.kleaf = K_GOOD; c.kint = K_GOOD;
+                c.x = X_DEPTH1; add_case(c);
+                c.x = X_DEPTH2; add_case(c);
+                c.x = X_DEPTH3; add_case(c);
                 c.x = X_WRONGKEY; add_case(c);
                 c.x = X_NOANCHOR; add_case(c);
                 if (v == 0)
